@@ -5,7 +5,9 @@ Decided on the output grammar (Engine A), anchored on the repetition over `modul
   * for every variant of naga::Literal (variants and payload types read from the pinned naga source) there is a row whose
     declared type token equals the payload's Rust type and whose value hole is the bound payload itself with an empty
     conversion chain (quote prints a suffixed literal of that type, so type and value always agree and the value is exact);
-  * expression kinds other than Literal yield no item; the only filters are "has a name" and "is a literal".
+  * scalar zero-value constructors (`const Z = u32();`, kept by naga as Expression::ZeroValue) are exported as the zero of
+    their scalar type for every scalar kind/width; zero values of non-scalar types and all other expression kinds yield no
+    item; the only filters are "has a name" and "is a scalar literal / scalar zero value".
 Not decided: that proc-macro2/syn/prettyplease print a float literal that parses back bit-identically (library law)."""
 import engine_ogp as E
 import schema as S
@@ -25,6 +27,17 @@ def atoms(c, out):
             atoms(b, out)
     elif c[0] not in ('true', 'false'):
         out.append(c)
+
+
+def derived(term, base):
+    found = [False]
+
+    def f(x):
+        if x == base:
+            found[0] = True
+            return False
+    E.walk(term, f)
+    return found[0]
 
 
 def find_stars(term, pred):
@@ -121,6 +134,11 @@ def run(rep):
             continue
         if a[0] == 'is' and (a[2].endswith('Expression::Literal') or '::Literal::' in a[2]):
             continue
+        if a[0] == 'is' and a[2].endswith('Expression::ZeroValue') and a[1] == wantL[1]:
+            continue
+        zty = ('f', ('idx', ('f', st[1][1], 'types'), ('vf', wantL[1], 'naga::Expression::ZeroValue', '0')), 'inner')
+        if a[0] in ('is', 'eq') and derived(a[1], zty):
+            continue   # type tests on the zero value's own type (judged row by row by the zero-value rule)
         if a[0] == 'is' and a[2].split('::')[-1] in ('Some', 'None') and a[1] == ('f', item, 'name'):
             continue
         bad.append(a)
@@ -132,9 +150,48 @@ def run(rep):
     def f_expr(x):
         if x[0] == 'alt':
             for c, v in x[1]:
-                if c[0] == 'is' and '::Expression::' in c[2] and not c[2].endswith('::Literal'):
+                if c[0] == 'is' and '::Expression::' in c[2] and not c[2].endswith(('::Literal', '::ZeroValue')):
                     if E.find_templates(v, lambda t: True):
                         non_lit.append(c[2])
     E.walk(tv, f_expr)
-    rep.check(not non_lit, 'C15.non-scalar-skipped', 'non-scalar', where, f'expression kinds {non_lit} also produce constant items', ok_detail='only Expression::Literal yields an item')
+    rep.check(not non_lit, 'C15.non-scalar-skipped', 'non-scalar', where, f'expression kinds {non_lit} also produce constant items', ok_detail='only Expression::Literal and scalar Expression::ZeroValue yield an item')
     rep.floor('rows of the literal table', sum(1 for v in lit if v in rows), len(lit))
+    # ---- scalar zero-value constructors (`const Z = u32();` stays Expression::ZeroValue in naga's IR) -------------------------------
+    from conc import Eval, V, Diverge, Unbound
+    import leaf_tables as LT
+    expr = wantL[1]
+    tyinner = ('f', ('idx', ('f', st[1][1], 'types'), ('vf', expr, 'naga::Expression::ZeroValue', '0')), 'inner')
+    TI = 'naga::TypeInner::'
+    pts = [(f'scalar/{k}{w * 8}', V(TI + 'Scalar', **{'0': LT.scalar_v(k, w)}), LT.rust_scalar(k, w)) for k, w in LT.SCALARS]
+    pts += [('vector', V(TI + 'Vector', size=LT.vsize(3), scalar=LT.scalar_v('Float', 4)), None),
+            ('matrix', V(TI + 'Matrix', columns=LT.vsize(2), rows=LT.vsize(2), scalar=LT.scalar_v('Float', 4)), None),
+            ('array', V(TI + 'Array', base='h', size=V('naga::ArraySize::Constant', **{'0': 2}), stride=4), None),
+            ('struct', V(TI + 'Struct', members=(), span=4), None)]
+    for label, inner, rty in pts:
+        def leaf(t, inner=inner):
+            if t == expr:
+                return (V('naga::Expression::ZeroValue', **{'0': 'h'}),)
+            if t == tyinner:
+                return (inner,)
+            if t[0] in ('is_ok', 'is_some') and t[1] == ('f', item, 'name'):
+                return (True,)
+            return None
+        ev = Eval(leaf, lenient=False)
+        key = f'C15.zero-value:{label}'
+        try:
+            emitted = all(ev.truth(c) for c in st[4])
+            text = ev.ev(tv) if emitted else None
+        except Diverge:
+            emitted, text = False, None
+        except Unbound as u:
+            rep.bad('C15.zero-value', key, where, f'cannot evaluate the constant table for a zero-value constructor of type {label}: {u}', undecided=True)
+            continue
+        if rty is None:
+            rep.check(not emitted, 'C15.zero-value', key, where, f'a zero-value constant of non-scalar type ({label}) is exported as `{text}`', ok_detail='skipped')
+        else:
+            want = 'bool = false' if rty == 'bool' else f'{rty} = 0{rty}'
+            alt_ok = text is not None and text.replace(' ', '') in (want.replace(' ', ''), f'{rty}=0.0{rty}', f'{rty}=0' if rty != 'bool' else 'bool=false', f'{rty}=0.0' if rty[0] == 'f' else '')
+            rep.check(emitted and alt_ok, 'C15.zero-value', key, where,
+                      f'`const Z = {rty}();` (naga keeps it as Expression::ZeroValue of a scalar type) is ' + (f'exported as `{text}`' if emitted else 'not exported at all') +
+                      f'; expected `pub const Z: {want};`: a named scalar constant is missing from / wrong in the bindings',
+                      ok_detail=f'{label} -> `{text}`')
